@@ -107,7 +107,27 @@ fn summaries(mut pp: ParsedPacket, p: &[u8], m: &wire::Msg) -> Result<(), String
 fn gen_c18(r: &mut Rng) -> Vec<u8> {
     let mut p: Vec<u8> = vec![0, 1, 0x80, 0, 0, 1, 0, 0, 0, 0, 0, 0, 1, b'q', 0, 0, 1, 0, 1];
     let mut an = 0u16;
-    match r.below(4) {
+    match r.below(5) {
+        4 => {
+            // the longest admissible walk: 16 pointers, with 126 one-byte labels right after the first one, hidden in the data of an unknown-type
+            // record; then m records whose owner name is a pointer to the top of the chain (a validator that re-walks the name after each pointer
+            // spends about fifteen times the work on every one of them)
+            let m = 200 + r.below(1500) as usize;
+            p.extend_from_slice(&[0, 0, 99, 0, 1, 0, 0, 0, 1]);
+            let lenpos = p.len(); p.extend_from_slice(&[0, 0]);
+            let start = p.len();
+            let e0 = p.len(); p.extend_from_slice(&[1, b'z', 0]);
+            // a chain of 14 bare pointers ending in e0, then the 126 labels followed by a pointer to the top of that chain:
+            // owner pointer + the pointer after the labels + 14 chain pointers = 16 pointers, the most the parser follows, and the labels come
+            // right after the FIRST pointer (so that a walk which restarts after every pointer meets them every time)
+            let mut prev = e0;
+            for _ in 0..14 { let here = p.len(); p.push(0xc0 | (prev >> 8) as u8); p.push(prev as u8); prev = here; }
+            let a = p.len(); for _ in 0..126 { p.push(1); p.push(b'a'); } p.push(0xc0 | (prev >> 8) as u8); p.push(prev as u8);
+            let prev = a;
+            let l = p.len() - start; p[lenpos] = (l >> 8) as u8; p[lenpos + 1] = l as u8;
+            an += 1;
+            for _ in 0..m { p.push(0xc0 | (prev >> 8) as u8); p.push(prev as u8); p.extend_from_slice(&[0, 99, 0, 1, 0, 0, 0, 1, 0, 0]); an += 1; }
+        }
         3 => {
             // a long run of one-byte labels hidden in the data of an unknown-type record, then m records whose owner name is a pointer to its start
             // (a validator that forgets the 255-byte limit after a pointer walks the whole run once per record)
